@@ -8,16 +8,20 @@ function (S4); executor lifetime (S5); list-preserving result (S6).
 The rules look at the pairing / ordering, not at the statement shape: the (index, file) pairs may be produced by a `for`
 statement that stores map[future] = index or by a dict comprehension {submit(...): index for index, file in enumerate(files)};
 the sequential pass may be an append loop or a list comprehension; a value (the number of files, the result of a future) may
-be bound to a local first; the futures may be collected in a list in file order first and indexed by their position
+be bound to a local first; a helper that lives in another module is expanded at the call (c06.expand_foreign_helpers) and a small
+state object wrapping the list / dict is replaced by its attributes as locals (c06.expand_state_objects) before the rules
+run; an accumulator may be handed to the per-file call of the sequential pass only when it is new or provably cleared for every
+file (S3, _accumulator_reuse); the futures may be collected in a list in file order first and indexed by their position
 in that list (enumerate of the list).  S5 and S6 are decided per path (c06.sym_paths): which object receives .submit and whether it is
 among the open context managers (with items, or handed to enter_context() of an ExitStack that is open there); which list object each `return` hands to SignatureList - so guard clauses with early
 return, chained assignments, helper expansion and conditional expressions all reduce to the same question.
 """
 import ast
 
-from ..astutil import (u, guard_map, path_atoms, stmts_in, calls_in, callee, callee_attr, reaching_def, def_value,
+from ..astutil import (assigned_targets, u, guard_map, path_atoms, stmts_in, calls_in, callee, callee_attr, reaching_def, def_value,
                        PARAM, AMBIGUOUS, raised_name, assigns_to, get_arg, block_path, find_parent_map, is_none)
-from .c06 import sym_paths, returning, subst, is_unknown, _is_simple
+from ..report import Undecided
+from .c06 import sym_paths, returning, subst, is_unknown, _is_simple, expand_foreign_helpers, expand_state_objects
 
 FN = 'gambit.sigs.calc.calc_file_signatures'
 ORDER_PRESERVING_ITER = {'gambit.util.progress.iter_progress'}
@@ -37,7 +41,8 @@ def declare_rules(rep):
     rep.rule('S6', 'every return hands the list filled on that path (sequential or concurrent), unmodified, to SignatureList(..., kspec); no other return')
     rep.rule('S7', 'a failing file fails the call: no context manager of the package swallows the exception raised inside its with block (__exit__ returns nothing / a false constant; @contextmanager generators do not catch around the yield without re-raising)')
     rep.trusted += ['concurrent.futures: Future.result() re-raises the worker exception; as_completed yields each given future exactly once',
-                    'iter_progress / ProgressIterator yield the wrapped items unchanged and in order (checked under C08-A7)']
+                    'iter_progress / ProgressIterator yield the wrapped items unchanged and in order (checked under C08-A7)',
+                    'np.flatnonzero / ndarray.astype / np.fromiter / np.sort return newly allocated arrays (an accumulator that is cleared and re-used does not alias earlier signatures)']
 
 
 def unfold(fn, e, at):
@@ -173,11 +178,164 @@ def _staged_submission(rep, fi, fn, pm, comp, sub_stmt, files):
     return out
 
 
+def _accumulators_resettable(rep, m):
+    """clear() of every k-mer accumulator class puts back the state the constructor creates, and signature() does not hand out
+    that state itself - the two facts that make an accumulator that was cleared indistinguishable from a new one."""
+    base = 'gambit.sigs.calc.KmerAccumulator'
+    MUT = ('add', 'discard', 'update', 'remove', 'pop', 'append', 'extend', 'insert', 'setdefault', 'popitem', 'difference_update', 'intersection_update')
+    subs = m.subclasses(base)
+    rep.require(subs, f'no subclass of {base} found')
+    aliasing = []
+    for ci in subs:                     # a located deviation first: the array handed out IS the accumulator's state
+        sig = ci.methods.get('signature')
+        for s in stmts_in(sig.node.body) if sig is not None else []:
+            if isinstance(s, ast.Return) and s.value is not None:
+                v = s.value
+                while isinstance(v, ast.Subscript):
+                    v = v.value
+                if isinstance(v, ast.Attribute) and u(v.value) == 'self':
+                    aliasing.append(f'{ci.name}.signature returns {u(s.value)}')
+    if aliasing:
+        return aliasing
+    for ci in subs:
+        init, clear, sig = ci.methods.get('__init__'), ci.methods.get('clear'), ci.methods.get('signature')
+        rep.require(init is not None and clear is not None and sig is not None, f'{ci.qualname}: __init__ / clear / signature is not defined in the class itself (an accumulator that is re-used cannot be shown to be reset)')
+        inits = {t.attr: s.value for s in stmts_in(init.node.body) if isinstance(s, ast.Assign) for t in s.targets if isinstance(t, ast.Attribute) and u(t.value) == 'self'}
+        mutated = set()
+        for name, f in ci.methods.items():
+            if name in ('__init__', 'clear'):
+                continue
+            for n in ast.walk(f.node):
+                if isinstance(n, (ast.Assign, ast.AugAssign, ast.Delete)):
+                    for t in (n.targets if not isinstance(n, ast.AugAssign) else [n.target]):
+                        root = t
+                        while isinstance(root, (ast.Subscript, ast.Attribute)) and not (isinstance(root, ast.Attribute) and u(root.value) == 'self'):
+                            root = root.value
+                        if isinstance(root, ast.Attribute) and u(root.value) == 'self':
+                            rep.require(root is not t, f'{ci.qualname}.{name} rebinds self.{root.attr}: the state of a re-used accumulator cannot be followed')
+                            mutated.add(root.attr)
+                if isinstance(n, ast.Call) and isinstance(n.func, ast.Attribute) and n.func.attr in MUT and isinstance(n.func.value, ast.Attribute) and u(n.func.value.value) == 'self':
+                    mutated.add(n.func.value.attr)
+        reset = set()
+        for s in clear.node.body:
+            if isinstance(s, ast.Expr) and isinstance(s.value, ast.Constant):
+                continue
+            tgt = s.targets[0] if isinstance(s, ast.Assign) and len(s.targets) == 1 else None
+            if isinstance(tgt, ast.Subscript) and isinstance(tgt.value, ast.Attribute) and u(tgt.value.value) == 'self' and u(tgt.slice) == ':' and isinstance(s.value, ast.Constant) and not s.value.value \
+                    and isinstance(inits.get(tgt.value.attr), ast.Call) and callee_attr(inits[tgt.value.attr]) == 'zeros':
+                reset.add(tgt.value.attr)            # array of zeros / False again
+            elif isinstance(s, ast.Expr) and isinstance(s.value, ast.Call) and isinstance(s.value.func, ast.Attribute) and s.value.func.attr == 'clear' and not s.value.args \
+                    and isinstance(s.value.func.value, ast.Attribute) and u(s.value.func.value.value) == 'self' and u(inits.get(s.value.func.value.attr)) in ('set()', 'dict()', 'list()', '[]', '{}'):
+                reset.add(s.value.func.value.attr)   # empty container again
+            elif isinstance(tgt, ast.Attribute) and u(tgt.value) == 'self' and tgt.attr in inits and u(s.value) == u(inits[tgt.attr]) and not any(isinstance(x, ast.Name) and x.id != 'self' for x in ast.walk(s.value) if isinstance(x, ast.Name) and x.id in init.params()):
+                reset.add(tgt.attr)
+            else:
+                rep.require(False, f'{ci.qualname}.clear: statement outside the vocabulary: {u(s)[:60]}')
+        rep.require(mutated <= reset, f'{ci.qualname}: clear() resets {sorted(reset)} but the other methods change {sorted(mutated)}')
+    return aliasing
+
+
+def _accumulator_reuse(rep, m, fi, loop, c, kspec):
+    """The per-file call in the sequential loop is given accumulator=A.  Accepted only when on EVERY path through the loop body A
+    is in the freshly constructed state when the call is made: None, an accumulator created in this very iteration by
+    default_accumulator(kspec.k), or an accumulator of that kind that lives across iterations and was clear()ed earlier in this
+    iteration with nothing touching it in between.  Returns (ok, found)."""
+    QD, QF = 'gambit.sigs.calc.default_accumulator', 'gambit.sigs.calc.calc_file_signature'
+    fn = fi.node
+
+    def is_default(e):
+        return isinstance(e, ast.Call) and m.resolve_call(fi, e) == QD and [u(a) for a in e.args] == [f'{kspec}.k'] and not e.keywords
+
+    aliasing = _accumulators_resettable(rep, m)
+    if aliasing:
+        return False, f'an accumulator is re-used although {aliasing}'
+    targets = {n.id for n in ast.walk(loop.target) if isinstance(n, ast.Name)}
+    carried = {n.id for s in stmts_in(loop.body) for t in assigned_targets(s) for n in ast.walk(t) if isinstance(n, ast.Name) and isinstance(n.ctx, ast.Store)} - targets
+    ok, found, npaths = True, [], 0
+
+    def touches(e, name):
+        return any(isinstance(x, ast.Name) and x.id == name for y in e.exprs() for x in ast.walk(y))
+
+    runs = []
+    for p in sym_paths(fn):
+        ev = p.event_of(loop, 'loop')
+        if ev is None:
+            continue
+        env = dict(ev.env)
+        for v in carried:
+            entry = env.get(v)
+            rep.require(entry is None or is_none(entry) or (isinstance(entry, ast.Name) and is_default(p.defs.get(entry.id))),
+                        f'{FN}: {v} enters the sequential loop with a value that is neither None nor default_accumulator({kspec}.k): {u(entry)}')
+            if isinstance(entry, ast.Name) and any(touches(e, entry.id) for e in p.events[:p.events.index(ev)] if not (e.kind == 'def' and e.sym == entry.id)):
+                rep.require(False, f'{FN}: {entry.id} is used before the sequential loop by a construct that is not interpreted')
+            env[v] = ast.Name(id=f'{v}~0', ctx=ast.Load())
+        runs.append((p, sym_paths(fn, block=loop.body, env=env)))
+    # does every iteration leave the accumulator it passes on empty (cleared after use, or not used)?  Then, by induction over
+    # the iterations, the inherited one is empty at the top of every iteration as well (it starts as None / new).
+    leaves_clean = True
+    for p, body in runs:
+        for b in body:
+            for v in carried:
+                out = subst(ast.Name(id=v, ctx=ast.Load()), b.env)
+                if isinstance(out, ast.Name) and not is_none(out):
+                    last = [e for e in b.events if touches(e, out.id) and not (e.kind == 'def' and e.sym == out.id)]
+                    if last and not (last[-1].kind == 'call' and u(last[-1].expr) == f'{out.id}.clear()'):
+                        leaves_clean = False
+    for p, body in runs:
+        for b in body:
+            npaths += 1
+            calls = [(i, x) for i, e in enumerate(b.events) for y in e.exprs() for x in ast.walk(y) if isinstance(x, ast.Call) and m.resolve_call(fi, x) == QF]
+            if b.end[0] != 'fall' or len(calls) != 1:
+                ok = False
+                found.append(f'{len(calls)} calls on a path that ends in {b.end[0]}')
+                continue
+            at, call = calls[0]
+            a = next((k.value for k in call.keywords if k.arg == 'accumulator'), None)
+            for v in carried:                      # what the next iteration inherits
+                out = subst(ast.Name(id=v, ctx=ast.Load()), b.env)
+                rep.require(is_none(out) or (isinstance(out, ast.Name) and (out.id == f'{v}~0' or is_default(b.defs.get(out.id)))),
+                            f'{FN}: {v} leaves an iteration of the sequential loop with a value outside the vocabulary: {u(out)}')
+            if a is None or is_none(a) or is_default(a):
+                continue                        # nothing given / a new accumulator built in the call itself
+            rep.require(isinstance(a, ast.Name) and not is_unknown(a), f'{FN}: cannot follow the accumulator handed to calc_file_signature: {u(a)}')
+            made_here = a.id in b.defs and a.id not in p.defs
+            if made_here:
+                rep.require(is_default(b.defs[a.id]), f'{FN}: the accumulator handed to calc_file_signature is built by a construct outside the vocabulary: {u(b.defs[a.id])[:60]}')
+                continue
+            lives_on = a.id.endswith('~0') or is_default(p.defs.get(a.id))
+            if not lives_on:
+                rep.require(a.id in p.defs or a.id in fi.params(), f'{FN}: cannot follow the accumulator handed to calc_file_signature: {a.id}')
+                ok = False
+                found.append(f'{a.id} is shared between files and is not an accumulator created here')
+                continue
+            if a.id.endswith('~0') and not b.feasible_with(('isnot', 'None', a.id)):
+                continue                        # known to be None here: the callee creates a new one
+            cleared = [i for i, e in enumerate(b.events[:at]) if e.kind == 'call' and u(e.expr) == f'{a.id}.clear()']
+            touched = [u(e.stmt)[:50] for e in b.events[(cleared[-1] + 1 if cleared else 0):at] if touches(e, a.id)]
+            inherited_clean = leaves_clean and a.id.endswith('~0')
+            if (not cleared and not inherited_clean) or touched:
+                ok = False
+                found.append(f'{a.id} carries the k-mers of the previous file: ' + ('neither cleared before the call nor left empty by every iteration' if not touched else f'used before the call: {touched}'))
+    rep.require(npaths > 0, f'{FN}: no path through the sequential loop')
+    return ok, sorted(set(found)) or 'fresh or cleared on every path'
+
+
 def core(ctx):
     check_no_swallow(ctx)
     rep, m = ctx.rep, ctx.model
-    fi = m.func(FN)
+    fi = expand_foreign_helpers(m, m.func(FN))
+    fi, notes = expand_state_objects(m, fi)
     rep.functions.add(fi.qualname)
+    if notes:
+        try:
+            return _core(ctx, fi)
+        except Undecided as e:
+            raise Undecided(f'{e} [state object not followed by value flow: {"; ".join(notes)}]')
+    return _core(ctx, fi)
+
+
+def _core(ctx, fi):
+    rep, m = ctx.rep, ctx.model
     fn = fi.node
     params = fi.params()
     rep.require(params[:2] == ['kspec', 'files'] and 'executor' in params, f'{FN}: parameters changed: {params}')
@@ -393,9 +551,18 @@ def core(ctx):
                 seq_sites.append((st, st.targets[0].id))
             continue
         app = isinstance(st, ast.Expr) and isinstance(st.value, ast.Call) and callee_attr(st.value) == 'append' and st.value.args and st.value.args[0] is c
-        ok = src_ok and app and [u(a) for a in c.args] == [kspec, var] and not c.keywords and st in loop.body
+        ok = src_ok and app and [u(a) for a in c.args] == [kspec, var] and st in loop.body
+        reuse = ''
+        if ok and c.keywords:
+            # an accumulator handed to the per-file call: every file must still see an empty one (else files leak into each other)
+            if [k.arg for k in c.keywords] == ['accumulator']:
+                ok, reuse = _accumulator_reuse(rep, m, fi, loop, c, kspec)
+                reuse = f' [{reuse}]'
+            else:
+                ok = False
         rep.add('S3', fi.site(st), 'sequential branch appends the single-file result of each file, in the order of files', ok,
-                expected=f'for file in {files}: sigs.append(calc_file_signature({kspec}, file))', found=f'for {u(loop.target)} in {u(src)}: {u(st)}', stmt='sequential append')
+                expected=f'for file in {files}: sigs.append(calc_file_signature({kspec}, file))  (an accumulator may be passed only if it is new or cleared for every file)',
+                found=f'for {u(loop.target)} in {u(src)}: {u(st)}{reuse}', stmt='sequential append')
         if app:
             lst = u(st.value.func.value)
             d = reaching_def(fn, lst, loop if not any(isinstance(o, ast.With) for (_, _, o) in sbp) else next(o for (_, _, o) in sbp if isinstance(o, ast.With)))
@@ -520,6 +687,24 @@ _BODY_OLD = (_SEQ_OLD + "\n\telse:\n\t\tsigs = [None] * len(files)\n" + _SUBMIT_
              "\t\t\t\tsigs[i] = future.result()\n\t\t\t\tmeter.increment()\n\n\t\tassert all(sig is not None for sig in sigs)\n")
 _BODY_GUARD = (_SEQ_OLD + "\n\t\treturn SignatureList(%s, kspec)\n\n\tsigs = [None] * len(files)\n" + _SUBMIT_OLD.replace("\n\t\t", "\n\t").replace("\t\tfuture_to_index = dict()", "\tfuture_to_index = dict()")
                + "\n\t\tfor future in as_completed(future_to_index):\n\t\t\ti = future_to_index[future]\n\t\t\tsigs[i] = future.result()\n\t\t\tmeter.increment()\n\n\tassert all(sig is not None for sig in sigs)\n")
+_CLS_ANCHOR = "def calc_file_signatures(kspec: KmerSpec,"
+_SLOTS = ("class _Slots:\n\tdef __init__(self, n):\n\t\tself.items = [None] * n\n\t\tself.where = dict()\n\n\tdef track(self, future, index):\n\t\t%s\n\n"
+          "\tdef store(self, future):\n\t\t%s\n\n\n")
+_SLOTS_USE = [(_C, "\t\tsigs = [None] * len(files)\n\t\tfuture_to_index = dict()\n", "\t\tslots = _Slots(len(files))\n"),
+              (_C, "\t\t\t\tfuture = executor.submit(calc_file_signature, kspec, file)\n\t\t\t\tfuture_to_index[future] = i\n", "\t\t\t\tslots.track(executor.submit(calc_file_signature, kspec, file), i)\n"),
+              (_C, "\t\t\tfor future in as_completed(future_to_index):\n\t\t\t\ti = future_to_index[future]\n\t\t\t\tsigs[i] = future.result()\n", "\t\t\tfor future in as_completed(slots.where):\n\t\t\t\tslots.store(future)\n"),
+              (_C, "\t\tassert all(sig is not None for sig in sigs)\n", "\t\tsigs = slots.items\n")]
+_GATHER_OLD = "\t\t\tfor future in as_completed(future_to_index):\n\t\t\t\ti = future_to_index[future]\n\t\t\t\tsigs[i] = future.result()\n\t\t\t\tmeter.increment()\n"
+_REUSE = "\t\tsigs = []\n\t\tshared = None\n\n\t\twith iter_progress(files, progress) as file_itr:\n\t\t\tfor file in file_itr:\n%s\t\t\t\tsigs.append(calc_file_signature(kspec, file, accumulator=shared))\n%s"
+
+
+def _moved(store):
+    misc = 'src/gambit/util/misc.py'
+    return [(_C, "from gambit.util.progress import iter_progress, get_progress\n", "from gambit.util.progress import iter_progress, get_progress\nfrom gambit.util.misc import gather_results\n"),
+            (misc, "def type_singledispatchmethod(func: Callable):", "def gather_results(positions, out, meter):\n\tfrom concurrent.futures import as_completed as done\n\tfor future in done(positions):\n\t\ti = positions[future]\n"
+             + store + "\t\tmeter.increment()\n\n\ndef type_singledispatchmethod(func: Callable):")]
+
+
 _STAGED = ("\t\twith executor_context, get_progress(progress, len(files)) as meter:\n\t\t\tfutures = [executor.submit(calc_file_signature, kspec, %s) for file in %s]\n%s"
            "\t\t\tfuture_to_index = {future: %s for i, future in enumerate(futures)}\n")
 _CTX_OLD = "\n\t\texecutor_context = executor\n\n\telse:\n\t\texecutor_context = nullcontext()\n"
@@ -577,6 +762,28 @@ VARIANTS = [
       also=[(_C, "\t\twith executor_context, get_progress", "\t\twith (executor if own else nullcontext()), get_progress")]),
     V('twin: ownership flag inverted (caller executor shut down, own executor leaked)', 'B', _C, "\t\texecutor_context = executor\n\n\telse:\n\t\texecutor_context = nullcontext()\n", "\t\town = False\n\n\telse:\n\t\town = True\n", 'S5',
       also=[(_C, "\t\twith executor_context, get_progress", "\t\twith (executor if own else nullcontext()), get_progress")]),
+    # a small state class in place of the list + dict (read by value flow: methods expanded, attributes as locals)
+    V('E: result list and index map wrapped in a small state class', 'E', _C, _CLS_ANCHOR, _SLOTS % ('self.where[future] = index', 'self.items[self.where[future]] = future.result()') + _CLS_ANCHOR, also=_SLOTS_USE),
+    V('twin: state class stores each result at the number of results so far', 'B', _C, _CLS_ANCHOR, _SLOTS % ('self.where[future] = index', 'self.items[sum(x is not None for x in self.items)] = future.result()') + _CLS_ANCHOR, 'S1', also=_SLOTS_USE),
+    V('twin: state class registers the mirrored position', 'B', _C, _CLS_ANCHOR, _SLOTS % ('self.where[future] = len(self.items) - 1 - index', 'self.items[self.where[future]] = future.result()') + _CLS_ANCHOR, 'S1', also=_SLOTS_USE),
+    V('twin: state class swallows the exception of a failed task', 'B', _C, _CLS_ANCHOR,
+      _SLOTS % ('self.where[future] = index', 'try:\n\t\t\tself.items[self.where[future]] = future.result()\n\t\texcept Exception:\n\t\t\tpass') + _CLS_ANCHOR, 'S2', also=_SLOTS_USE),
+    # the gather loop moved into a utility module and imported back (a helper N8 does not see)
+    V('E: completion loop moved to gambit.util.misc and imported', 'E', _C, _GATHER_OLD, "\t\t\tgather_results(future_to_index, sigs, meter)\n",
+      also=_moved("\t\tout[i] = future.result()\n")),
+    V('twin: moved completion loop stores in arrival order', 'B', _C, _GATHER_OLD, "\t\t\tgather_results(future_to_index, sigs, meter)\n", 'S1', also=_moved("\t\tout[meter.n] = future.result()\n")),
+    V('twin: moved completion loop ignores failed tasks', 'B', _C, _GATHER_OLD, "\t\t\tgather_results(future_to_index, sigs, meter)\n", 'S2',
+      also=_moved("\t\tif future.exception() is None:\n\t\t\tout[i] = future.result()\n")),
+    # one accumulator re-used for all files of the sequential pass
+    V('E: sequential pass re-uses one accumulator, cleared before every later file', 'E', _C, _SEQ_OLD, _REUSE % ("\t\t\t\tif shared is None:\n\t\t\t\t\tshared = default_accumulator(kspec.k)\n\t\t\t\telse:\n\t\t\t\t\tshared.clear()\n", "")),
+    V('E: sequential pass re-uses one accumulator, cleared after every file', 'E', _C, _SEQ_OLD, _REUSE % ("\t\t\t\tif shared is None:\n\t\t\t\t\tshared = default_accumulator(kspec.k)\n", "\t\t\t\tshared.clear()\n")),
+    V('twin: re-used accumulator never cleared (files leak into each other)', 'B', _C, _SEQ_OLD, _REUSE % ("\t\t\t\tif shared is None:\n\t\t\t\t\tshared = default_accumulator(kspec.k)\n", ""), 'S3'),
+    V('twin: re-used accumulator cleared for every other file only', 'B', _C, _SEQ_OLD,
+      _REUSE % ("\t\t\t\tif shared is None:\n\t\t\t\t\tshared = default_accumulator(kspec.k)\n\t\t\t\telif len(sigs) % 2:\n\t\t\t\t\tshared.clear()\n", ""), 'S3'),
+    V('twin: re-used accumulator cleared, then primed again before the call', 'B', _C, _SEQ_OLD,
+      _REUSE % ("\t\t\t\tif shared is None:\n\t\t\t\t\tshared = default_accumulator(kspec.k)\n\t\t\t\telse:\n\t\t\t\t\tshared.clear()\n\t\t\t\tshared.add(0)\n", ""), 'S3'),
+    V('twin: accumulator re-used although signature() hands out its own array', 'B', _C, _SEQ_OLD, _REUSE % ("\t\t\t\tif shared is None:\n\t\t\t\t\tshared = default_accumulator(kspec.k)\n\t\t\t\telse:\n\t\t\t\t\tshared.clear()\n", ""), 'S3',
+      also=[(_C, "\t\tsig = np.fromiter(self.set, dtype=self._dtype)\n\t\tsig.sort()\n\t\treturn sig\n", "\t\tself.sorted = np.sort(np.fromiter(self.set, dtype=self._dtype))\n\t\treturn self.sorted\n")]),
     # submissions collected in a list first, the index taken from the position in that list
     V('E: list of futures in file order, index map from enumerate of that list', 'E', _C, _SUBMIT_OLD, _STAGED % ('file', 'files', '', 'i')),
     V('E: list of futures, index map filled by a loop over enumerate of that list', 'E', _C, _SUBMIT_OLD,
